@@ -93,7 +93,9 @@ func keyEntry(kid string) string {
 // the warm-up) carries the served keys behind one entry of a key type the library does
 // not know. The document scenarios serve the same key sets with ONE extra entry of
 // another kind at the first / middle / last position, a document without any extra
-// entry ("plain") and a document that consists of unknown key types only ("onlyunk").
+// entry ("plain"), and — whatever the provider's key set — a document with an empty key
+// list ("empty") or one that consists of unknown key types only ("onlyunk"): good
+// downloads that serve no key, so a cached key is retired by them.
 //
 // Either = neither the property statement nor the library's documentation ("ignore any
 // error which might occur because of unknown key types (kty)") decides whether such a
@@ -164,6 +166,8 @@ func jwksBody(kids []string, doc string) []byte {
 		// every set of the scheduling scenarios also carries a key of a type the library does not know: it must be ignored, not fail the download
 		entries = insertAt(entries, `{"kty":"XYZ","kid":"future-1","use":"sig","x":"AAAA"}`, "first")
 	case "plain":
+	case "empty":
+		entries = nil
 	case "onlyunk":
 		entries = []string{`{"kty":"AKP","kid":"pq-1","alg":"ML-DSA-44","use":"sig","pub":"AAAA"}`, `{"kty":"XYZ","kid":"future-1","use":"sig","x":"AAAA"}`}
 	default:
@@ -181,7 +185,7 @@ func servedKeys(kids []string, doc string) []string {
 	switch kind {
 	case "dup":
 		return insertAt(kids, kids[len(kids)-1], pos)
-	case "onlyunk":
+	case "onlyunk", "empty":
 		return []string{}
 	}
 	return kids
@@ -239,7 +243,7 @@ type scen struct {
 	MaxCancel int      `json:"max_cancels"`
 	Deadline  bool     `json:"cancel_by_deadline"` // callers' contexts end by a deadline (caller i: start+(i+1)h) instead of an explicit cancel; expire(ci) advances the fake clock past caller i's deadline
 	FailKinds []string `json:"fail_kinds"`
-	Doc       string   `json:"jwks_document,omitempty"` // "<entry kind>@<first|middle|last>", "plain", "onlyunk"; "" = the default document (see jwksBody). Applies to every 200 answer of the explored history; the warm-up download always gets the default document
+	Doc       string   `json:"jwks_document,omitempty"` // "<entry kind>@<first|middle|last>", "plain", "empty", "onlyunk"; "" = the default document (see jwksBody). Applies to every 200 answer of the explored history; the warm-up download always gets the default document
 }
 
 func (s scen) sets() (s0, s1 []string) {
@@ -936,7 +940,9 @@ func (e *execution) judge1(reading string) engine.Result {
 	}
 	out := strings.Join(outs, ",") + fmt.Sprintf("|dl=%d", len(e.flights))
 	if reading != "" {
-		out += "|doc=" + reading
+		out += "|doc=" + reading // a document the statement does not classify, and the reading under which the execution is fine
+	} else if sc.Doc != "" {
+		out += "|doc=classified" // plain / empty / unknown kty / duplicate / encryption key / only unknown kty: the reference reading is fixed
 	}
 	if len(e.problems) > 0 {
 		sort.Strings(e.problems)
@@ -1039,7 +1045,7 @@ func scenarios(c *engine.Check) []scen {
 
 // docVariants lists the JWKS document variants of the sequential dimension.
 func docVariants() []string {
-	out := []string{"plain", "onlyunk"}
+	out := []string{"plain", "empty", "onlyunk"}
 	for _, k := range []string{"unk", "dup", "enc", "badrsa", "badec", "crv", "num", "null"} {
 		for _, pos := range []string{"first", "middle", "last"} {
 			out = append(out, k+"@"+pos)
